@@ -318,6 +318,13 @@ def _run_core(prop, tier, seed, v, wd):
             v.violation("%s: %s" % (viol["what"], viol["detail"]), {"kind": "core-c05cli", "seed": seed, "case": viol["line"]}, None)
         extra_cov["cli_failing_before_sync_executions"] = r5["executions"]
         cov_samples += r5.get("samples", [])[:1]
+        # page level (WhisperFile): every transition of the labelled session graph replayed as a schedule of real sessions;
+        # the file's bytes are read raw after every step (they change only in Sync; a dropped handle and Close leave them)
+        import sched_replay
+        sc = sched_replay.run(wd, binp, "C05", tier, seed, v)
+        cov_samples += sc.pop("samples")[:1]
+        extra_cov["schedules_replayed"] = sc
+        behaviours_ok += sc["behaviours"]
     coverage = {
         "states": states, "transitions": transitions,
         "traces_validated_against_impl": replayed_edges + replayed_states + (traces_total - rejected if ntr else 0) + behaviours_ok,
